@@ -2,7 +2,7 @@
     (reader) at a level of the index-bounded recursion, the frame relation [PullRel], and
     the transfer lemmas that move the invariant across the primitive steps. *)
 From Coq Require Import List ZArith Bool Arith Lia.
-From LV Require Import Reactive.Graph Reactive.GraphLemmas Reactive.GraphInvariant
+From LV Require Import Reactive.Graph Reactive.GraphLemmas Reactive.GraphReplay Reactive.GraphInvariant
                        Reactive.GraphMarkProofs Reactive.GraphPullBase Reactive.GraphPullSteps.
 Import ListNotations.
 Close Scope Z_scope.
@@ -89,6 +89,7 @@ Proof.
   - destruct (inv_rest _ _ _ _ I x Hin) as (R1 & R2 & _ & R4 & _).
     destruct (memob_decl p x Hmx) as (cm & e & Hd).
     unfold uncached_ok, GraphInvariant.needs_clean, needs_clean_n in *. rewrite Hd in *.
+    destruct R2 as [R2 _].
     destruct (cache (getn s x)) eqn:Ec; [|destruct (R2 eq_refl); congruence].
     assert (Hsrc : In y (srcs (getn s x))) by (eapply wf_sub_src; eauto; apply I).
     rewrite R1 in Hsrc. apply in_tracked_of in Hsrc as (v & Hv).
@@ -210,12 +211,18 @@ Definition USpec (n : nat) (U : updater) : Prop :=
     (memob j = true -> st (getn s' j) = Clean /\ cache (getn s' j) <> None) /\
     (ch = true -> forall k, In j (tracked_of (rlog (getn s' k))) -> since (getn s' k) <> []).
 
+(* [Growth]: what a read (or an evaluation) appends to the log of the running body replays to
+   the value it returned *)
+Definition Growth (c : ctx) (s s' : state) (P : list lentry -> Prop) : Prop :=
+  forall w, fst c = Some w -> exists D, rlog (getn s' w) = rlog (getn s w) ++ D /\ P D.
+
 Definition RSpec (n : nat) (R : reader) : Prop :=
   forall m c j s stk t s' v,
     j < n -> j < t -> effb j = false -> Inv stk t s -> ctx_ok stk c -> TopOK c s ->
     R m c j s = (s', v) ->
     Inv stk t s' /\ TopOK c s' /\ PullRel (S j) stk (fst c) s s' /\
     (memob j = true -> st (getn s' j) = Clean /\ cache (getn s' j) = Some v) /\
-    (sigb j = true -> v = sval (getn s' j)).
+    (sigb j = true -> v = sval (getn s' j)) /\
+    Growth c s s' (fun D => forall rest, rlvl p n m (snd c) j (D ++ rest) = Some (v, rest)).
 
 End P.
